@@ -305,6 +305,21 @@ theorem esteps_checkTypeExists (g : Globals) (t : Ty) (n : Name) (s : St) : ESte
     · exact ESteps.refl _
     · exact ESteps.single (EStep.addErr _ _ _ _ _)
 
+theorem esteps_fnReturnTail (g : Globals) (resTy : Ty) (e : Expr) (r : ExprResult) (s : St) :
+    ESteps s (fnReturnTail g resTy e r s) := by
+  unfold fnReturnTail
+  dsimp only
+  have h3 := esteps_checkTypeExists g r.ty e.show s
+  generalize (checkTypeExists g r.ty e.show s).2 = s3 at h3
+  have h4 : ESteps s (if resTy ≠ r.ty then s3.addErr .wrongReturnType e.show 1 0 else s3) := by
+    split
+    · exact h3.tail (EStep.addErr _ _ _ _ _)
+    · exact h3
+  generalize (if resTy ≠ r.ty then s3.addErr .wrongReturnType e.show 1 0 else s3) = s4 at h4
+  split
+  · exact h4.tail (EStep.emit _ _ rfl rfl rfl (by intro v hv; simp [Instr.usesValue] at hv))
+  · exact h4.tail (EStep.emit _ _ rfl rfl rfl (by intro v hv; simp [Instr.usesValue] at hv))
+
 theorem esteps_fnReturn (g : Globals) (resTy : Ty) (e : Expr) (rc : Bool) (s : St) :
     ESteps s (fnReturn g resTy e rc s).1 := by
   unfold fnReturn
@@ -320,18 +335,7 @@ theorem esteps_fnReturn (g : Globals) (resTy : Ty) (e : Expr) (rc : Bool) (s : S
     generalize (if rc then s1.addErr .returnAlreadyCalled e.show 1 0 else s1) = s2 at h2
     cases a with
     | none => exact h2
-    | some r =>
-      dsimp only
-      have h3 := h2.trans (esteps_checkTypeExists g r.ty e.show s2)
-      generalize (checkTypeExists g r.ty e.show s2).2 = s3 at h3
-      have h4 : ESteps s (if resTy ≠ r.ty then s3.addErr .wrongReturnType e.show 1 0 else s3) := by
-        split
-        · exact h3.tail (EStep.addErr _ _ _ _ _)
-        · exact h3
-      generalize (if resTy ≠ r.ty then s3.addErr .wrongReturnType e.show 1 0 else s3) = s4 at h4
-      split
-      · exact h4.tail (EStep.emit _ _ rfl rfl rfl (by intro v hv; simp [Instr.usesValue] at hv))
-      · exact h4.tail (EStep.emit _ _ rfl rfl rfl (by intro v hv; simp [Instr.usesValue] at hv))
+    | some r => exact h2.trans (esteps_fnReturnTail g resTy e r s2)
 
 theorem steps_bodyStmts (g : Globals) (resTy : Ty) : ∀ (l : List BodyStmt) (rc : Bool) (s : St),
     Steps s (bodyStmts g resTy l rc s).1
